@@ -13,6 +13,9 @@
                          through `runTimes_mirror` (a backward run is the mirror image of a forward run on negated times).
   * `teval_early_stop_forward`  : after any prefix of the history, reported ++ unreported = requested: what has been
                          reported is a prefix and every unreported request lies strictly beyond the last window.
+  * `popBeyond_last`, `popBeyond_prefix` : at a terminal event *every* trailing requested-time sample beyond the event (taken
+                         early, through the tolerance window of the previous step) is taken back, not just one; only samples are
+                         removed, from the end, and `next_idx` goes down by their number.
 -/
 import IvpModel.Proofs.SolOutPhases
 
